@@ -24,7 +24,12 @@ FLAVOURS = {
     'asan': ['-O1', '-fsanitize=address,undefined', '-fno-sanitize-recover=all', '-D_GLIBCXX_ASSERTIONS'],
     'tsan': ['-O1', '-fsanitize=thread'],
     'plain': ['-O1'],
+    # coverage-guided campaign (libFuzzer): clang; object-size is off because clang's UBSan raises false alarms on empty
+    # classes with zero-length arrays
+    'fuzz': ['-O1', '-fsanitize=fuzzer,address,undefined', '-fno-sanitize-recover=all', '-fno-sanitize=object-size',
+             '-D_GLIBCXX_ASSERTIONS', '-DVF_FUZZ'],
 }
+COMPILER = {'fuzz': 'clang++'}
 RUN_ENV = {
     'asan': {
         'ASAN_OPTIONS': 'abort_on_error=1:detect_leaks=0:detect_stack_use_after_return=1:allocator_may_return_null=1',
@@ -34,6 +39,10 @@ RUN_ENV = {
         'TSAN_OPTIONS': 'halt_on_error=0:exitcode=0:second_deadlock_stack=1:history_size=4',
     },
     'plain': {},
+    'fuzz': {
+        'ASAN_OPTIONS': 'abort_on_error=1:detect_leaks=0:allocator_may_return_null=1',
+        'UBSAN_OPTIONS': 'print_stacktrace=1:halt_on_error=1',
+    },
 }
 
 KIND_DEFINE = {
@@ -83,7 +92,7 @@ def _compile(harness, kind, flavour, bdir):
         return out, 0.0, ''
     src = os.path.join(VERIF, 'harness', harness + '.cpp')
     tmp = out + '.tmp.%d' % os.getpid()
-    cmd = ['g++'] + COMMON_FLAGS + FLAVOURS[flavour] + ['-D' + KIND_DEFINE[kind], '-I' + os.path.join(REPO, 'include'),
+    cmd = [COMPILER.get(flavour, 'g++')] + COMMON_FLAGS + FLAVOURS[flavour] + ['-D' + KIND_DEFINE[kind], '-I' + os.path.join(REPO, 'include'),
                                                         '-I' + os.path.join(VERIF, 'harness'), src, '-o', tmp]
     t0 = time.time()
     p = subprocess.run(cmd, stdout=subprocess.PIPE, stderr=subprocess.STDOUT, text=True)
@@ -351,7 +360,105 @@ def _run_segment(job, extra_args, env):
             'hang': hang}
 
 
+def run_fuzz_job(job):
+    """one libFuzzer campaign: `cases` executions, restarted behind every artifact (at most 4); job.prop selects the property whose
+    oracle violations stop the campaign ('all': sanitizer reports and table-width invariants)."""
+    import base64, tempfile
+    t0 = time.time()
+    env = dict(os.environ)
+    env.update(RUN_ENV['fuzz'])
+    known, _ = load_known()
+    env['VF_FUZZ_PROP'] = job.prop
+    env['VF_FUZZ_KNOWN'] = ','.join('%s:%s' % (k['prop'], k['key']) for k in known)
+    work = tempfile.mkdtemp(prefix='fuzz-', dir=os.path.join(BUILD, 'tmp') if os.path.isdir(os.path.join(BUILD, 'tmp')) else None)
+    corpus = os.path.join(work, 'corpus')
+    art = os.path.join(work, 'artifacts')
+    os.makedirs(corpus)
+    os.makedirs(art)
+    remaining = job.cases
+    crashes = 0
+    job.fuzz = {'executions': 0, 'cov': 0, 'ft': 0, 'corpus_units': 0, 'campaign_segments': 0}
+    job.extra_distinct = 0
+    try:
+        while remaining > 0 and crashes < 4:
+            cmd = [job.binary, '-runs=%d' % remaining, '-max_len=2048', '-len_control=0',
+                   '-seed=%d' % (job.seed * 1000 + job.shard * 10 + crashes + 1), '-print_final_stats=1',
+                   '-artifact_prefix=%s/' % art, '-timeout=%d' % job.case_timeout, '-rss_limit_mb=6000', corpus]
+            try:
+                p = subprocess.run(cmd, env=env, stdout=subprocess.PIPE, stderr=subprocess.PIPE, text=True, errors='replace',
+                                   timeout=max(3600, remaining / 20.0))
+            except subprocess.TimeoutExpired:
+                job.inconclusive.append((-1, 'fuzzing campaign exceeded its wall-clock budget'))
+                break
+            job.fuzz['campaign_segments'] += 1
+            m = re.findall(r'stat::number_of_executed_units:\s+(\d+)', p.stderr)
+            executed = int(m[-1]) if m else 0
+            m = re.findall(r'#\d+\s+\S+\s+cov: (\d+) ft: (\d+) corp: (\d+)/', p.stderr)
+            if m:
+                job.fuzz['cov'] = max(job.fuzz['cov'], int(m[-1][0]))
+                job.fuzz['ft'] = max(job.fuzz['ft'], int(m[-1][1]))
+                job.fuzz['corpus_units'] = max(job.fuzz['corpus_units'], int(m[-1][2]))
+            job.fuzz['executions'] += executed
+            job.evaluations += executed
+            for ln in p.stdout.splitlines():
+                if ln.startswith('STATS '):
+                    try:
+                        st = json.loads(ln[6:])
+                        job.stats.append(st)
+                        job.extra_distinct += st.get('fuzz_distinct_nontrivial', 0)
+                    except ValueError:
+                        pass
+            if p.returncode == 0:
+                break
+            # an artifact: oracle violation (VIOL line, then abort), sanitizer report, or libFuzzer timeout / out-of-memory
+            am = re.search(r'Test unit written to (\S+)', p.stderr)
+            data = b''
+            if am and os.path.exists(am.group(1)):
+                data = open(am.group(1), 'rb').read()
+            viol_lines = [ln for ln in p.stdout.splitlines() if ln.startswith('VIOL ')]
+            timeout_hit = 'libFuzzer: timeout' in p.stderr
+            if timeout_hit and data:
+                # a slow unit is inconclusive unless it is slow again when run alone with a generous limit
+                f = os.path.join(work, 'slow-unit')
+                open(f, 'wb').write(data)
+                try:
+                    p2 = subprocess.run([job.binary, '-timeout=%d' % (4 * job.case_timeout), f], env=env, stdout=subprocess.PIPE,
+                                        stderr=subprocess.PIPE, text=True, errors='replace', timeout=6 * job.case_timeout)
+                    again = p2.returncode != 0 and 'libFuzzer: timeout' in p2.stderr
+                except subprocess.TimeoutExpired:
+                    again = True
+                if not again:
+                    job.inconclusive.append((-1, 'libFuzzer timeout once, unit completed when run alone'))
+                    remaining -= max(executed, 1)
+                    crashes += 1
+                    continue
+            if viol_lines:
+                _, k, vprop, key, wit = viol_lines[-1].split(' ', 4)
+            elif timeout_hit:
+                vprop, key, wit = job.prop, 'hang', json.dumps({'detail': 'libFuzzer timeout (%d s), twice' % job.case_timeout})
+            else:
+                ckey, summ = classify_crash(p.stderr, p.returncode)
+                vprop, key = job.prop, 'crash:' + ckey
+                wit = json.dumps({'summary': summ, 'stderr_tail': p.stderr[-3000:]})
+            try:
+                w = json.loads(wit)
+            except ValueError:
+                w = {'text': wit}
+            if not isinstance(w, dict):
+                w = {'text': w}
+            w['fuzz_input_base64'] = base64.b64encode(data).decode()
+            job.viol.append({'prop': vprop, 'key': key, 'k': job.fuzz['executions'], 'witness': json.dumps(w)})
+            remaining -= max(executed, 1)
+            crashes += 1
+    finally:
+        shutil.rmtree(work, ignore_errors=True)
+    job.wall = time.time() - t0
+    return job
+
+
 def run_job(job):
+    if job.flavour == 'fuzz':
+        return run_fuzz_job(job)
     t0 = time.time()
     env = dict(os.environ)
     env.update(RUN_ENV[job.flavour])
@@ -449,7 +556,7 @@ def main(argv):
         flavours = ['asan', 'tsan']
         if '--with-plain' in argv:
             flavours.append('plain')
-        needed = plan.all_binaries(flavours)
+        needed = plan.all_binaries(flavours) + plan.fuzz_binaries()
         build(needed)
         log('[build] %d binaries ready' % len(needed))
         return 0
@@ -534,6 +641,30 @@ def write_replay(pid, job, v):
 def do_replay(pid, path):
     rec = json.load(open(path if os.path.isabs(path) else os.path.join(OUT, path)))
     bins = build([(rec['harness'], rec['kind'], rec['flavour'])])
+    if rec['flavour'] == 'fuzz':
+        import base64, tempfile
+        data = base64.b64decode((rec.get('witness') or {}).get('fuzz_input_base64', ''))
+        env = dict(os.environ)
+        env.update(RUN_ENV['fuzz'])
+        known, _ = load_known()
+        env['VF_FUZZ_PROP'] = rec['prop_arg']
+        env['VF_FUZZ_KNOWN'] = ','.join('%s:%s' % (k['prop'], k['key']) for k in known)
+        with tempfile.NamedTemporaryFile(prefix='fuzz-unit-', delete=False) as tf:
+            tf.write(data)
+        try:
+            p = subprocess.run([bins[(rec['harness'], rec['kind'], 'fuzz')], '-timeout=600', tf.name], env=env, stdout=subprocess.PIPE,
+                               stderr=subprocess.PIPE, text=True, errors='replace', timeout=1800)
+        finally:
+            os.unlink(tf.name)
+        for ln in p.stdout.splitlines():
+            if ln.startswith('VIOL '):
+                log('replayed: ' + ln[:2000])
+        if p.returncode != 0:
+            log(p.stderr[-1500:])
+            log('VIOLATION property=%s replay=%s' % (pid, path))
+            return 1
+        log('replay: no violation reproduced')
+        return 0
     j = Job(bins[(rec['harness'], rec['kind'], rec['flavour'])], rec['harness'], rec['kind'], rec['flavour'],
             rec['prop_arg'], rec['seed'], rec['shard'], rec['nshards'], rec['cases'], rec['tier'], rec['extra'])
     j.only = rec['k']
@@ -620,7 +751,8 @@ def summarise(pid, tier, seed, spec, jobs, wall):
         d['processes'] += 1
         d['wall_s'] = round(d['wall_s'] + j.wall, 1)
 
-    distinct = len(hashes)
+    distinct = len(hashes) + sum(getattr(j, 'extra_distinct', 0) for j in jobs)
+    fuzz_jobs = [j for j in jobs if getattr(j, 'fuzz', None)]
     ev = {
         'property_id': pid, 'tier': tier, 'seed': seed, 'level': 'exploration',
         'coverage': {
@@ -641,6 +773,16 @@ def summarise(pid, tier, seed, spec, jobs, wall):
         'wall_s': round(wall, 1),
         'violations': len(new_viol),
     }
+    if fuzz_jobs:
+        ev['coverage']['fuzzing'] = {
+            'engine': 'libFuzzer (clang 14) over the decision stream of the harness generators, ASan+UBSan',
+            'campaigns': len(fuzz_jobs),
+            'executions': sum(j.fuzz['executions'] for j in fuzz_jobs),
+            'edges_covered_max': max(j.fuzz['cov'] for j in fuzz_jobs),
+            'features_max': max(j.fuzz['ft'] for j in fuzz_jobs),
+            'corpus_units_kept': sum(j.fuzz['corpus_units'] for j in fuzz_jobs),
+            'per_campaign': {j.ident(): j.fuzz for j in fuzz_jobs},
+        }
     if exhaustive is not None:
         ev['coverage']['exhaustive'] = bool(exhaustive)
         ev['coverage']['exhaustive_scope'] = spec.get('exhaustive_scope', '')
